@@ -48,6 +48,7 @@ type Job struct {
 	Threads         bool // tier 3: goroutines are symbolic threads with symbolic schedules
 	Preempt         int  // bound on preemptions per path (0: switch only when blocked)
 	EagerCalls      []string // threads whose body calls one of these commute with all others: scheduled first, no fork
+	PreemptAt       string // restrict preemption points to these kinds (e.g. "select"); empty: all visible operations
 	CanonicalBlock  bool // at blocking points the first-created runnable thread continues (no fork); forks only at preemptions
 	GoInlineCalls   []string // goroutines whose body calls one of these functions run to completion when spawned
 	OnAlloc         func(it *Interp, ev AllocEvent)
